@@ -85,6 +85,20 @@ def run(case):
         wantd = float(np.mean(np.sum(cart[-1] ** 2, axis=-1)) * oracle.ANGSTROM**2 / (2 * dims * T * case['time_step']))
         if abs(d - wantd) > 1e-9 * abs(wantd) + 1e-9 * scale * oracle.ANGSTROM**2 / (2 * dims * T * case['time_step']):
             raise Violation('tracer-diffusivity-equals-definition', f'dimensions={dims}: reported {d!r}, mean_i |dr_i(final)|^2 / (2 d t) = {wantd!r} (atoms={N})')
+    # the constructor's other input form with a real step in the first row (the starting point is base_positions): distances and the
+    # tracer diffusivity are measured from the starting point
+    if T >= 2 and N <= 8:
+        stp = np.concatenate([path[1:2] - path[:1], np.diff(path, axis=0)], axis=0)
+        td = cases.trajectory(stp, case['symbols'], M, case['time_step'], case['temperature'], case['species_kind'], coords_are_displacement=True, base_positions=path[0] - np.floor(path[0]))
+        cart_d = np.cumsum(stp, axis=0) @ M
+        dd = np.array(gcall(td.distances_from_base_position))
+        wdd = np.linalg.norm(cart_d, axis=-1).T
+        if dd.shape != wdd.shape or np.abs(dd - wdd).max() > 1e-9 * max(1.0, wdd.max()):
+            raise Violation('distance-equals-cartesian-length', 'displacement input whose first row is a step')
+        d3 = float(gcall(gcall(td.metrics).tracer_diffusivity, dimensions=3))
+        w3 = float(np.mean(np.sum(cart_d[-1] ** 2, axis=-1)) * oracle.ANGSTROM**2 / (6 * T * case['time_step']))
+        if abs(d3 - w3) > 1e-9 * abs(w3) + 1e-9 * scale * oracle.ANGSTROM**2 / (6 * T * case['time_step']):
+            raise Violation('tracer-diffusivity-equals-definition', f'displacement input whose first row is a step: reported {d3!r}, mean_i |dr_i(final)|^2 / (6 t) from the starting point = {w3!r}')
     crossings = int(np.sum(np.floor(path[1:]) != np.floor(path[:-1])))
     fam, ori = case['lattice']['family'], case['lattice']['orient']
     skew = fam in ('hexagonal', 'rhombohedral', 'monoclinic', 'triclinic') or ori == 'rot'
@@ -133,7 +147,32 @@ def many_path(case):
     return base + t_ * 0.3 * np.sin(1.0 + 0.37 * a_ + 1.1 * x_ + case['phase']) + 0.05 * np.sin(0.9 * t_ * (1 + (a_ % 5)) + x_)
 
 
+def run_many_big(case):
+    """hundreds of atoms x thousands of frames: the MSD of every atom at ~40 lags vs the direct definition"""
+    T, N = case['frames'], case['atoms']
+    M = np.array(case['lattice']['matrix'], float)
+    path = many_path(dict(case, phase=case['phase'])) * np.array([1.0, 1.0, 1.0])
+    path = path[:1] + (path - path[:1]) * 0.2  # (slower: the atoms still cross faces hundreds of times)
+    t = cases.trajectory(path - np.floor(path) if case['form'] != 'unwrapped' else path, ['Li'] * N, M, 1e-15, 300.0)
+    got = np.array(gcall(t.mean_squared_displacement))
+    if got.shape != (N, T):
+        raise Violation('msd-shape', f'{got.shape} vs (atoms, lags)={(N, T)}')
+    cart = (path - path[:1]) @ M
+    scale = max(float(np.sum(cart * cart, axis=-1).max()), float(np.sum(M * M, axis=1).max()))
+    lags = sorted({0, 1, 2, 3, 5, 17, T // 2, T // 3, T - 2, T - 1} | {2**k for k in range(2, 14) if 2**k < T} | {2**k + 1 for k in range(2, 14) if 2**k + 1 < T})
+    for tau in lags:
+        d = cart[tau:] - cart[: T - tau]
+        want = np.mean(np.sum(d * d, axis=-1), axis=0)
+        err = np.abs(got[:, tau] - want)
+        if np.any(err > 1e-8 * scale + 1e-8 * np.abs(want)):
+            i = int(np.argmax(err))
+            raise Violation('msd-equals-definition', f'{N} atoms x {T} frames, atom {i} lag {tau}: reported {got[i, tau]!r}, time-origin average of |r(t+tau)-r(t)|^2 is {want[i]!r}')
+    return {'nontrivial': True, 'labels': [case['lattice']['family'], 'coordinates>2^22' if T * N * 3 > 2**22 else 'coordinates<=2^22', 'form-' + case['form']]}
+
+
 def run_many(case):
+    if case['frames'] > 1000:
+        return run_many_big(case)
     c = dict(case, path=many_path(case), symbols=(['Li'] * case['atoms'] if case['one_species'] else [['Li', 'Na', 'S'][i % 3] for i in range(case['atoms'])]),
              species_kind='Species', time_step=1e-15, temperature=300.0, dims_order=(3, 2, 1))
     info = run(c)
@@ -145,8 +184,9 @@ def run_many(case):
 
 @st.composite
 def many_cases(draw, tier):
-    return {'lattice': draw(gen.lattices()), 'frames': draw(st.integers(2, 12 if tier == 'quick' else 40)),
-            'atoms': draw(st.sampled_from([255, 256, 257, 300, 511, 512, 513, 601, 1000, 1025] + ([2049, 4097] if tier == 'thorough' else []))),
+    big = draw(st.integers(0, 3)) == 0  # many atoms AND many frames: more than 2^22 coordinates in one call
+    return {'lattice': draw(gen.lattices()), 'frames': draw(st.sampled_from([4097, 8192, 10000])) if big else draw(st.integers(2, 12 if tier == 'quick' else 40)),
+            'atoms': draw(st.sampled_from([140, 180, 350])) if big else draw(st.sampled_from([255, 256, 257, 300, 511, 512, 513, 601, 1000, 1025] + ([2049, 4097] if tier == 'thorough' else []))),
             'phase': draw(st.sampled_from([0.0, 0.5, 2.0])), 'one_species': draw(st.booleans()), 'form': draw(st.sampled_from(['wrapped', 'unwrapped', 'displacements'])),
             'touch_first': draw(st.booleans()), 'prelude': draw(st.lists(st.sampled_from(['positions', 'displacements', 'msd', 'center_of_mass']), max_size=1))}
 
@@ -259,7 +299,7 @@ SUBS.append(
         shards={'quick': 16, 'thorough': 16}))
 SUBS.append(
     Sub(name='many-atoms', kind='hyp', shrink=False, run=run_many, strategy=many_cases,
-        rule='255 - 1025 (4097) atoms (around multiples of 256 and 512) x 2-12 (40) frames in all lattices, every atom with its own drift and wobble, one or three species, three input forms: MSD of every atom at every lag vs the direct definition, distances, tracer diffusivity (atom-count dependent code paths)',
+        rule='255 - 1025 (4097) atoms (around multiples of 256 and 512) x 2-12 (40) frames, or 140 - 350 atoms x 4097 - 10 000 frames (up to 10^7 coordinates in one call, sampled lags), in all lattices, every atom with its own drift and wobble, one or three species, three input forms: MSD of every atom at every lag vs the direct definition, distances, tracer diffusivity (atom-count dependent code paths)',
         n={'quick': 4, 'thorough': 30}, shards={'quick': 6, 'thorough': 16}))
 SUBS.append(
     Sub(name='long-trajectories', kind='hyp', shrink=False, run=run_long, strategy=long_cases,
